@@ -41,7 +41,8 @@ vh::Outcome run_def(const vh::Case& c, Prop prop) {
     vh::Outcome out;
     bool faults = prop == P_C20;
     out.res = vrt::run(c.sched, [&] {
-        D d(uint64_t(0));
+        std::unique_ptr<D> dp(ctor_from_rvalue(c) ? new D(Tracked(uint64_t(0))) : new D(uint64_t(0)));
+        D& d = *dp;
         vrt::MutexCore* core = vrt::rt().mutexes.empty() ? nullptr : vrt::rt().mutexes[0];     // m_mutex is the first mutex the wrapper constructs
         constexpr bool share_capable = std::is_same<M, vstd::shared_mutex>::value || std::is_same<M, vstd::shared_timed_mutex>::value;
         auto owns_shared = [&] { return core && (share_capable ? core->shared_by[vrt::self()] > 0 : core->owner == vrt::self()); };
